@@ -287,17 +287,14 @@ def deleteOne (cfg : Cfg) (bk : Bucket) (k vid newVid : Bytes) : Bucket × Resp 
       else if bk.versioning == .enabled then
         (bk.setVersions k (markerOf vs newVid :: vs), okR [("deletemarker", "true"), ("vid", hx newVid)])
       else
-        -- suspended: the current version becomes the null delete marker; a current null version is
-        -- replaced by it, a current version with an id is archived first (an archived null
-        -- version, if any, is left where it is: suspended-state details are not pinned by C09)
-        (bk.setVersions k (markerOf vs [] :: (match vs with
-            | v :: rest => if v.vid.isEmpty then rest else v :: rest
-            | [] => [])),
+        -- suspended: the null delete marker replaces the null version (wherever it is); a current
+        -- version with an id is archived first
+        (bk.setVersions k (markerOf vs [] :: vs.filter (·.vid != [])),
          okR [("deletemarker", "true"), ("vid", hx nullVid)])
     else
       match findVer vs vid with
       | none => (bk, errR "InvalidArgument")
-      | some v => (bk.setVersions k (vs.filter (·.vid != v.vid)), okR [("deletemarker", toString v.marker), ("vid", hx vid)])
+      | some v => (bk.setVersions k (vs.eraseP (·.vid == v.vid)), okR [("deletemarker", toString v.marker), ("vid", hx vid)])
   else
     (bk.setVersions k [], okR [("deletemarker", "false"), ("vid", hx [])])
 
